@@ -174,9 +174,10 @@ Abs(x) == IF x < 0 THEN -x ELSE x
 \* 2 b^2 >= ns * ln(2 M / delta).  LnTerm(M) >= ln(2 M * 1e12), precomputed ceilings.
 LnTerm(M) == IF M <= 27 THEN 32 ELSE IF M <= 81 THEN 33 ELSE IF M <= 256 THEN 34 ELSE 36
 HBound(ns, M) == CHOOSE b \in 0..ns : 2 * b * b >= ns * LnTerm(M) /\ (b = 0 \/ 2 * (b - 1) * (b - 1) < ns * LnTerm(M))
-\* counts against probabilities in units of 2^-14 (FFix14 truncates: 8 units of slack per sample unit)
+\* counts against probabilities in units of 2^-14; the soft-float posterior carries a relative error <= ~2^-10,
+\* FFix14 truncates: 32 units (0.002) of slack
 FreqBad(counts, ns, p, M) == \E hb \in {HBound(ns, M)} :
-    \E i \in 1..M : Abs(counts[i] * LO - ns * FFix14(p[i])) > hb * LO + 8 * ns
+    \E i \in 1..M : Abs(counts[i] * LO - ns * FFix14(p[i])) > hb * LO + 32 * ns
 
 Raised(st) == st # "ok" /\ st # "skipped"
 VerdictsOf(r, c, p) ==
